@@ -4,6 +4,7 @@ package c02
 import (
 	"bytes"
 	"fmt"
+	"github.com/scrapli/scrapligo/driver/options"
 	"regexp"
 	"strconv"
 	"strings"
@@ -354,8 +355,8 @@ func driverScenario(s drvScn) sched.Scenario {
 			cfg.Horizon = 3 * time.Second
 			w.Explore(cfg, sched.Bounds{Env: s.env}, func(e *sched.Env) {
 				caps := []string{dev.Cap10}
-				if s.version == "1.1" {
-					caps = append(caps, dev.Cap11)
+				if s.version == "1.1" || s.version == "1.0p" {
+					caps = append(caps, dev.Cap11) // "1.0p": the server offers both, the user asks for 1.0
 				}
 				srv := &dev.NCServer{Hello: dev.HelloDoc(caps, "9"), Echo: s.echo}
 				srv.Behave = func(i int, req dev.NCReq) (string, dev.NCBehavior) { return s.p.xml, dev.ReplyNow }
@@ -381,7 +382,11 @@ func driverScenario(s drvScn) sched.Scenario {
 				var r *response.NetconfResponse
 				var err, openErr error
 				e.Go("client", func() {
-					d, nerr := netconf.NewDriver("dev", cm.BaseOpts(tr, rd, 200*cm.Ms, 0)...)
+					nopts := cm.BaseOpts(tr, rd, 200*cm.Ms, 0)
+					if s.version == "1.0p" {
+						nopts = append(nopts, options.WithNetconfPreferredVersion("1.0"))
+					}
+					d, nerr := netconf.NewDriver("dev", nopts...)
 					if nerr != nil {
 						openErr = nerr
 						return
@@ -458,10 +463,10 @@ func scenarios(tier string) []sched.Scenario {
 		{"hashend", okReply("<d>window ##\nnext ##\n</d>"), false},
 		{"crlf", okReply("<d>line one\r\nline two\r\n</d>"), false}} // carriage returns are data, and counted in chunk sizes // '##' ends a line without starting one: only a search anchored at a line start of the whole buffer tells it from the terminator
 	for _, p := range drv {
-		for _, v := range []string{"1.0", "1.1"} {
+		for _, v := range []string{"1.0", "1.0p", "1.1"} {
 			for _, echo := range []bool{false, true} {
 				for _, np := range []int{1, 2, 3} {
-					if v == "1.0" && np > 1 {
+					if v != "1.1" && np > 1 {
 						continue
 					}
 					for _, mc := range []int{0, 1, 7} {
